@@ -36,8 +36,9 @@
 (*   off   off[f] = offset of f's first chunk in the blob (GetOffset)      *)
 (*   span  span[f] = registry chunks (index = offset \div cs) that hold    *)
 (*         the compressed data of f                                        *)
-(*   pre   pre[f] = files a chunk of which is decompressed (and cached by  *)
-(*         the pre-reader) on the way to f (several files in one stream)   *)
+(*   pre   pre[f] = files SOME chunks of which are decompressed (and cached *)
+(*         by the pre-reader) on the way to f (several files in a stream); *)
+(*   prf   prf[f] = files ALL chunks of which are cached that way          *)
 (*   prio  prioritized files; lm in {"prefetch","noprefetch","none"};      *)
 (*   loff  landmark offset; size blob size; cs registry chunk size;        *)
 (*   cfg   configured prefetch size; thr PrefetchAsyncSize;                *)
@@ -98,6 +99,7 @@ Min(a, b) == IF a < b THEN a ELSE b
 Files == 1..sc.nf
 Span(f) == ToSet(sc.span[f])
 Pre(f) == ToSet(sc.pre[f])
+Prf(f) == ToSet(sc.prf[f])
 Prio == ToSet(sc.prio)
 NB == (sc.size + sc.cs - 1) \div sc.cs
 Cover(n) == {i \in 0..(NB - 1) : i * sc.cs < n}          \* registry chunks of blob range [0, n)
@@ -117,7 +119,7 @@ RangeFiles(n) == {f \in Files : InRange(f, n)}
 \* chunk-cache effect of decompressing-and-caching the files F (those not yet full are really read)
 MarkFull(l, F) ==
     LET R == {g \in F : l[g] # 2} IN
-    [f \in Files |-> IF f \in F THEN 2
+    [f \in Files |-> IF f \in F \/ \E g \in R : f \in Prf(g) THEN 2
                      ELSE IF l[f] = 0 /\ \E g \in R : f \in Pre(g) THEN 1 ELSE l[f]]
 Missing(F) == UnionOf({f \in F : lst[f] # 2}, Span) \ fetched
 Servable(f) == lst[f] = 2 \/ Span(f) \subseteq fetched
@@ -193,7 +195,7 @@ BlobCache(r) == BlobCacheG(r, Cover(psize) \ fetched, IF pf = "stalled" THEN {} 
 \* bounds for a walk over the files F that decompresses and caches them
 NeedMin(F) == UnionOf({f \in F : lst[f] = 0}, Span) \ fetched
 GotMax(F) == UnionOf({f \in F : lst[f] # 2}, LAMBDA f : Hull(Span(f)))
-Monotone(l2, F) == \A f \in Files : l2[f] \in lst[f]..2 /\ (l2[f] > lst[f] => (f \in F \/ \E g \in F : f \in Pre(g)))
+Monotone(l2, F) == \A f \in Files : l2[f] \in lst[f]..2 /\ (l2[f] > lst[f] => (f \in F \/ \E g \in F : f \in Pre(g) \cup Prf(g)))
 
 ReaderCacheG(r, got, l2, rq) ==
     /\ pf = "fetched"
@@ -390,7 +392,7 @@ ConfiguredSizeCapped ==
 
 \* ... and nothing but the range and the files whose first chunk lies in it is requested by prefetch
 PrefetchTrafficConfined ==
-    (last.act \in {"BlobCacheStall", "BlobCache", "ReaderCache"} /\ sc.lm # "noprefetch") =>
+    (last.act \in {"BlobCacheStall", "BlobCache", "ReaderCache", "PrefetchEnd"} /\ sc.lm # "noprefetch") =>
         last.req \subseteq (Cover(Expected) \cup UnionOf({f \in Files : sc.off[f] < Expected}, LAMBDA f : Hull(Span(f))))
 
 \* after background fetch has completed successfully every regular file can be read in full with the registry
